@@ -976,3 +976,108 @@ Proof.
   - intros idx Hr. rewrite E1 in Hr. destruct (Hget idx Hr) as [j [_ [Hj ->]]]. apply Hg, Hj.
 Qed.
 End Adaptors.
+
+(* ---- TensorAccess / TensorTranspose: the non-row-major views par excellence ---- *)
+From Coq Require Import Permutation.
+
+Lemma prod_perm l1 l2 : Permutation l1 l2 -> prod l1 = prod l2.
+Proof.
+  induction 1 as [|x l l' _ IH|x y l|l l' l'' _ IH1 _ IH2].
+  - reflexivity.
+  - rewrite !prod_cons. congruence.
+  - rewrite !prod_cons. rewrite !N.mul_assoc. f_equal. apply N.mul_comm.
+  - congruence.
+Qed.
+
+Lemma shape_by_name_self sh : NoDup (names_of sh) ->
+  map (fun n => (n, match length_of sh n with Some l => l | None => 0 end)) (names_of sh) = sh.
+Proof.
+  induction sh as [|[n l] sh IH]; intros Hnd; [reflexivity|].
+  cbn [names_of map fst] in *. inversion Hnd as [|? ? Hn Hnd']; subst.
+  unfold length_of at 1. cbn [find fst]. rewrite Nat.eqb_refl. cbn [option_map snd]. f_equal.
+  rewrite <- IH at 2 by exact Hnd'. apply map_ext_in. intros n' Hin.
+  unfold length_of. cbn [find fst]. destruct (Nat.eqb_spec n n') as [->|_]; [contradiction|reflexivity].
+Qed.
+
+Lemma shape_by_name_perm sh req : NoDup (names_of sh) -> Permutation (names_of sh) req ->
+  Permutation sh (shape_by_name sh req).
+Proof.
+  intros Hnd Hp. unfold shape_by_name. rewrite <- (shape_by_name_self sh Hnd) at 1.
+  apply Permutation_map, Hp.
+Qed.
+
+Section Access.
+Context {A : Type}.
+
+Lemma access_core (v : tview A) req tbl : view_wf v -> length req = length (v_shape v) ->
+  dm_new (names_of (v_shape v)) req = Some tbl ->
+  let sh' := map_shape_to_requested tbl (v_shape v) in
+  sh' = shape_by_name (v_shape v) req /\ Permutation (v_shape v) sh' /\ NoDup req /\
+  forall idx, in_range idx (lens_of sh') ->
+    exists x, v_get v (map_dimensions_to_source tbl idx 0) = Some x.
+Proof.
+  intros [[Hnd Hpos] [Hb Hg]] Hlen Hnew sh'. set (sh := v_shape v) in *.
+  assert (Hl : length req = length (names_of sh)) by (unfold names_of; rewrite map_length; exact Hlen).
+  assert (Hperm : Permutation (names_of sh) req)
+    by (apply dm_new_iff_perm; auto; rewrite Hnew; discriminate).
+  (* a tensor of units with the same shape carries the index algebra of C01 *)
+  set (t := mkTensor (repeat tt (N.to_nat (elements sh))) sh (compute_strides sh)).
+  assert (Hinv : tensor_inv t).
+  { split; [split; assumption|]. split; [reflexivity|]. unfold t. cbn [t_data t_shape]. rewrite repeat_length. lia. }
+  assert (Ha : access_try_from t req = Ok (mkAccess t tbl))
+    by (unfold access_try_from; cbn [t_shape t]; rewrite Hnew; reflexivity).
+  assert (Es : sh' = shape_by_name sh req).
+  { apply (access_shape_by_name t req (mkAccess t tbl)); auto. }
+  split; [exact Es|]. split; [rewrite Es; apply shape_by_name_perm; auto|].
+  split; [eapply Permutation_NoDup; eauto|].
+  intros idx Hr. apply Hg.
+  assert (Hli : length idx = length sh).
+  { apply in_range_length in Hr. unfold sh', lens_of, map_shape_to_requested in Hr.
+    rewrite !map_length in Hr. rewrite Hr, (r2s_length _ _ _ Hnew). unfold names_of. apply map_length. }
+  pose proof (in_range_by_name_iff t req (mkAccess t tbl) idx Hinv Hlen Hli Ha) as E.
+  apply in_range_b_spec in Hr. unfold access_shape in E. cbn [a_tbl a_src t_shape t] in E.
+  fold sh' in E. rewrite Hr in E. apply in_range_b_spec in E.
+  rewrite (map_to_source_by_name sh req tbl idx Hnd Hlen Hnew). exact E.
+Qed.
+
+Theorem access_wf (v v' : tview A) req : view_wf v -> length req = length (v_shape v) ->
+  v_access v req = Some v' ->
+  view_wf v' /\ v_shape v' = shape_by_name (v_shape v) req /\
+  forall idx, v_get v' idx = v_get v (coords_by_name (v_shape v) req idx).
+Proof.
+  intros Hwf Hlen. unfold v_access. destruct (dm_new _ _) as [tbl|] eqn:Hnew; [|discriminate].
+  intros [= <-]. cbn [v_shape v_get].
+  destruct (access_core v req tbl Hwf Hlen Hnew) as [Es [Hp [Hnd' Hget]]].
+  destruct Hwf as [[Hnd Hpos] [Hb Hg]].
+  split; [|split; [exact Es|]].
+  - unfold view_wf. cbn [v_shape v_get]. split; [split|split].
+    + rewrite Es. unfold shape_by_name, names_of. rewrite map_map. cbn [fst]. rewrite map_id. exact Hnd'.
+    + eapply Permutation_Forall; [|exact Hpos]. unfold lens_of. apply Permutation_map, Hp.
+    + unfold elements, lens_of in *. rewrite <- (prod_perm _ _ (Permutation_map snd Hp)). exact Hb.
+    + exact Hget.
+  - intros idx. rewrite (map_to_source_by_name _ req tbl idx Hnd Hlen Hnew). reflexivity.
+Qed.
+
+Theorem transpose_wf (v v' : tview A) req : view_wf v -> length req = length (v_shape v) ->
+  v_transpose v req = Some v' ->
+  view_wf v' /\ names_of (v_shape v') = names_of (v_shape v) /\
+  lens_of (v_shape v') = lens_of (shape_by_name (v_shape v) req) /\
+  forall idx, v_get v' idx = v_get v (coords_by_name (v_shape v) req idx).
+Proof.
+  intros Hwf Hlen. unfold v_transpose. destruct (dm_new _ _) as [tbl|] eqn:Hnew; [|discriminate].
+  intros [= <-]. cbn [v_shape v_get].
+  destruct (access_core v req tbl Hwf Hlen Hnew) as [Es [Hp [Hnd' Hget]]].
+  destruct Hwf as [[Hnd Hpos] [Hb Hg]].
+  destruct (lens_of_combine (names_of (v_shape v)) (lens_of (map_shape_to_requested tbl (v_shape v))))
+    as [E1 E2].
+  { unfold lens_of, map_shape_to_requested. rewrite !map_length.
+    symmetry. apply (r2s_length _ _ _ Hnew). }
+  split; [|split; [exact E2|split; [rewrite E1, Es; reflexivity|]]].
+  - unfold view_wf. cbn [v_shape v_get]. rewrite E1, E2. split; [split|split].
+    + exact Hnd.
+    + eapply Permutation_Forall; [|exact Hpos]. unfold lens_of. apply Permutation_map, Hp.
+    + unfold elements in *. rewrite E1. unfold lens_of in *. rewrite <- (prod_perm _ _ (Permutation_map snd Hp)). exact Hb.
+    + exact Hget.
+  - intros idx. rewrite (map_to_source_by_name _ req tbl idx Hnd Hlen Hnew). reflexivity.
+Qed.
+End Access.
